@@ -33,6 +33,7 @@ def setup(ctx):
 @st.composite
 def programs(draw):
     c = draw(c09.programs())
+    c["reinit"] = False     # C09's re-init programs are refused by the library: not a fault-injection subject
     # keep programs small: fault runs are threefold
     c["threads"] = [t[:500] + ([["flush"]] if len(t) > 500 else []) for t in c["threads"][:2]]
     for t in c["threads"]:
